@@ -17,9 +17,10 @@ RULE = (
     'Hypothesis generates JSON map descriptors (vlib/vmfgen.py: worldspawn, entities with keyvalues/outputs/fixups/editor data, '
     'make_prism boxes and arbitrary Sides, displacements power 1-4 incl. multiblend, Strata point_data/viewports, visgroup trees, groups, '
     'cameras, cordons, settings) plus options minimal/disp_multiblend/preserve_ids; the map is built through the public constructors, '
-    'exported, parsed, exported again.  Sub-checks restrict the generator to one family of objects each; "samples" runs every .vmf under '
-    'tests/.  Non-trivial = the sub-check\'s own object family is present (whole: >=1 brush entity or displacement and >=1 output or '
-    'fixup); distinct = sha1 of the descriptor JSON'
+    'exported, parsed, exported again.  Each sub-check restricts the generator to one family of objects (keyvalues, outputs, fixups, '
+    'group/visgroup membership, brushes, displacements, meta blocks, whole maps) so that one defect does not hide the others; "samples" '
+    'runs every .vmf under tests/ with all option combinations.  Non-trivial = the sub-check\'s own object family is present (whole: '
+    '>=1 brush entity or displacement and >=1 output or fixup); distinct = sha1 of the descriptor JSON'
 )
 ASSUMPTIONS = list(vmfgen.PRECONDITIONS) + [
     'content not carried by the format is excluded from the comparison: worldspawn hidden/groups/visgroups/logicalpos and its '
